@@ -15,6 +15,9 @@ class All:
     (and, when it is the goal, at which the hypotheses are instantiated besides the skolem constants)."""
 
     def __init__(self, names, bounds, body, inst=()):
+        self.inst_fn = None
+        if callable(inst):          # goal-side hint: skolem constants -> tuples at which to instantiate the hypotheses
+            self.inst_fn, inst = inst, ()
         if isinstance(names, str):
             names, bounds = (names,), (bounds,)
             inst = tuple((t,) if not isinstance(t, tuple) else t for t in inst)
@@ -60,12 +63,39 @@ def conj(f, quant=True):
 def implies(cond, f):
     """cond -> f, for f a z3 Bool or an All (kept as All so it can still be instantiated)."""
     if isinstance(f, All):
-        return All(f.names, f.bounds, lambda *xs: z3.Implies(cond, conj(f.body(*xs))), f.inst)
+        return All(f.names, f.bounds, lambda *xs: z3.Implies(cond, conj(f.body(*xs))), f.inst_fn or f.inst)
     return z3.Implies(cond, f)
 
 
+def induction(label, var, lo, hi, P, hyps=(), insts=None):
+    """Proof steps for  forall lo <= x < hi . P(x)  by induction on x (P may return an All over other
+    variables).  Emits   label/base : P(lo)      label/step : lo<=x, x+1<hi, P(x) |- P(x+1)
+    and then adds the conclusion as a hypothesis for the following steps.  The induction schema over the
+    integers from `lo` is the one proof rule the engine itself trusts (everything else is a z3 query)."""
+    x0 = z3.Int("%s!ind_%s" % (var, label))
+    concl = All(var, (lo, hi), lambda x: P(x))
+    pa, pb = P(z3.Int("%s!fa" % var)), P(z3.Int("%s!fb" % var))
+    if isinstance(pa, All) and all(l1.eq(l2) and h1.eq(h2) for (l1, h1), (l2, h2) in
+                                   zip([(z3.IntVal(l) if isinstance(l, int) else l, z3.IntVal(h) if isinstance(h, int) else h) for l, h in pa.bounds],
+                                       [(z3.IntVal(l) if isinstance(l, int) else l, z3.IntVal(h) if isinstance(h, int) else h) for l, h in pb.bounds])):
+        # inner bounds do not depend on x: same formula as one flat bounded universal (instantiates better)
+        concl = All((var,) + pa.names, ((lo, hi),) + pa.bounds, lambda x, *ys: P(x).body(*ys))
+    lo_ = z3.IntVal(lo) if isinstance(lo, int) else lo
+    return [dict(label=label + "/base", goal=P(lo_), extra=[lo < hi] + list(hyps), keep=False,
+                 insts=insts(lo_) if insts else ()),
+            dict(label=label + "/step", goal=P(x0 + 1), extra=[lo <= x0, x0 + 1 < hi, P(x0)] + list(hyps), keep=False,
+                 insts=insts(x0 + 1) if insts else ()),
+            dict(label=label, goal=None, assume=concl)]
+
+
+def step(label, goal, extra=()):
+    return dict(label=label, goal=goal, extra=list(extra), keep=True)
+
+
 class Loop:
-    def __init__(self, inv=None, variant=None, outside=None, cuts=None):
+    def __init__(self, inv=None, variant=None, outside=None, cuts=None, split=None):
+        self.split = split          # c -> [atoms]: preservation goals are proved separately under every
+                                    # sign assignment of these atoms (exhaustive case analysis; sound)
         self.inv = inv or (lambda c: [])
         self.cuts = cuts            # c -> [(label, formula)]: proved at the end of the body, then assumed
                                     # for the preservation goals (intermediate lemmas, nothing is taken on trust)
@@ -75,7 +105,10 @@ class Loop:
 
 class Fn:
     def __init__(self, requires=None, ensures=None, assigns=(), ptr_params=None, rebinds=(),
-                 loops=None, lemmas=None, frees=(), outside=None):
+                 loops=None, lemmas=None, frees=(), outside=None, return_ensures=None, ghost=None):
+        self.return_ensures = return_ensures or {}   # ordinal of a `return` statement -> (c -> clauses)
+        self.ghost = ghost                  # c -> [(label, formula)]: definitional axioms of ghost functions
+                                            # and lemmas about them (each lemma has its own proof obligations)
         self.requires = requires or (lambda c: [])
         self.ensures = ensures or (lambda c: [])
         self.assigns = tuple(assigns)       # ('g', name) global scalar | ('garr', name) block of a global
